@@ -463,6 +463,9 @@ def check(prop: str, tier: str, seed: int) -> int:
     run.cov["distinct_nontrivial"] = len(distinct)
     run.cov["must_classes"] = musts
     run.cov["traces_validated_against_impl"] = len(cases)
+    if prop in ("C02", "C03"):
+        from . import checks_proto
+        checks_proto.wire_level(run, prop, tier, rnd)
     k = len(cases) // 3
     run.cov["samples"] = [{kk: (vv.hex() if isinstance(vv, (bytes, bytearray)) else vv) for kk, vv in cases[j].items() if kk != "ids"}
                           for j in (0, k, 2 * k)]
